@@ -152,14 +152,17 @@ Theorem C04_example_far :
   read_values ex_far = [BV (VPtr (Ok (B_ptr 62))); BV (VNum (Ok 258))] /\
   valid_message segs = VOk.
 Proof. exact ex_far_pointer. Qed.
+Print Assumptions C04_example_far.
 Theorem C04_example_double_far :
   let segs := last_dump ex_dfar in
   pointerType (le_decode (firstn 8 (skipn 8 (nth 0 segs [])))) = doubleFarPointer /\
   read_values ex_dfar = [BV (VPtr (Ok (B_ptr 62))); BV (VNum (Ok 258))] /\
   valid_message segs = VOk.
 Proof. exact ex_double_far_pointer. Qed.
+Print Assumptions C04_example_double_far.
 Theorem C04_example_place_pre : place_pre ex_before 0 8 1 0 4294967296.
 Proof. exact ex_place_pre. Qed.
+Print Assumptions C04_example_place_pre.
 
 (* ------------------------------------------------------------------ read back over the object table *)
 (* For the states the pointer-level invariant [hinv] describes (reachable states of the C05
@@ -330,3 +333,33 @@ Theorem C04_run_last_pointer_wins : forall e st1 objs pads ops q ht raw oldlen p
   p = handle_of ht depth.
 Proof. exact run_last_pointer_wins. Qed.
 Print Assumptions C04_run_last_pointer_wins.
+
+(* ------------------------------------------------------------------ establishment and serialisation *)
+From CV Require Import Core.HeapMarshal.
+From CV Require Frame.Frame.
+
+(* [T28] the premise [sinv] of T24-T27 is established: for every arena configuration with a root
+   word, every source message (bytes 0..255) and every program, every state the interpreter
+   reaches (fewer than 2^32 segments) satisfies it *)
+Theorem C04_reachable_sinv : forall a cfgd cfgs ncaps fuel src ops m,
+  arena_spec_wf a -> root_cap_ok a -> create a (init_rlimit cfgd) = Ok m -> sub_prog ops = true ->
+  msg_ok src -> cfg_strict cfgs = true ->
+  let st0 := mkBSt (mkW m src (init_rlimit cfgs)) [] in
+  dst_run (mkEnv cfgd cfgs ncaps fuel) st0 ops ->
+  Forall seg_bound (bstates (mkEnv cfgd cfgs ncaps fuel) st0 ops) ->
+  Forall (fun st => exists objs pads, sinv st objs pads) (bstates (mkEnv cfgd cfgs ncaps fuel) st0 ops).
+Proof. exact heap_inv_sublang. Qed.
+Print Assumptions C04_reachable_sinv.
+
+(* [T29] serialisation, unpacked paths: the segments of every state the invariant describes (at
+   most 2^30 - 1 segments) meet the premises of C14's frame theorems (C14_unmarshal_roundtrip,
+   C14_encode_is_marshal): Marshal succeeds, the Encoder writes the same bytes, and Unmarshal -
+   also with trailing bytes - returns exactly the segments, hence the same reads (T19 is a
+   statement about [bm_data]).  The packed paths and the stream Decoder (C14
+   all_paths_same_segments) additionally need every byte in 0..255, which the invariant does not
+   carry: for them the composition is checked by the runs only. *)
+Theorem C04_marshal_roundtrip_states : forall m objs pads, hinv m objs pads -> nsegs m <= 1073741823 ->
+  exists b, Frame.marshal (bm_data m) = Frame.Ok b /\ Frame.encode true (bm_data m) = Frame.Ok b /\
+            Frame.unmarshal b = Frame.Ok (bm_data m) /\ forall junk, Frame.unmarshal (b ++ junk) = Frame.Ok (bm_data m).
+Proof. exact marshal_roundtrip_states. Qed.
+Print Assumptions C04_marshal_roundtrip_states.
